@@ -1,12 +1,14 @@
 import MJ.Props.C08
 #print axioms MJ.C08.repr_covers
 #print axioms MJ.C08.int_op_exact
-#print axioms MJ.C08.neg_exact
+#print axioms MJ.C08.neg_exact_partial
+#print axioms MJ.C08.neg_counterexample
+#print axioms MJ.C08.C08_counterexample
 #print axioms MJ.C08.int_op_total_in_range
 #print axioms MJ.C08.neg_total_in_range
 #print axioms MJ.C08.width_independent
 #print axioms MJ.C08.neg_width_independent
 #print axioms MJ.C08.euclid
-#print axioms MJ.C08.C08
+#print axioms MJ.C08.C08_holds_partial
 #print axioms MJ.C08.float_rem_euclid_exact
 #print axioms MJ.C08.float_div_euclid_exact
